@@ -1247,6 +1247,16 @@ silent("c08-s-unit-filter-via-helper-lambda", "C08", CNF,
        "        new_terms = tuple(\n            t\n            for t in terms\n            if not (isinstance(t, Number) and t.data == ops.UNITS[bin_op])\n        )\n        if not new_terms:",
        "        unit = ops.UNITS[bin_op]\n        new_terms = tuple(\n            t for t in terms if not (isinstance(t, Number) and t.data == unit)\n        )\n        if not new_terms:")
 
+ADJOINT_ = "funsor/adjoint.py"
+_NARY_OLD = "    assert len(terms) == 1 or len(terms) == 2\n    return adjoint_ops(\n        Contraction,\n        adj_sum_op,\n        adj_prod_op,\n        out_adj,\n        sum_op,\n        prod_op,\n        reduced_vars,\n        *terms,\n    )\n"
+_NARY_NEW = ("    if len(terms) > 2:\n        from functools import reduce\n        head, tail = terms[0], terms[1:]\n"
+             "        (_, head_adj), (_, rest_adj) = adjoint_ops(Contraction, adj_sum_op, adj_prod_op, out_adj, sum_op, prod_op, reduced_vars, head, reduce(prod_op, tail))\n"
+             "        tail_adjs = adjoint_contract_generic(adj_sum_op, adj_prod_op, %s, ops.null, prod_op, frozenset(), tail)\n"
+             "        return ((head, head_adj),) + tail_adjs\n") + _NARY_OLD
+fire("c11-nary-adjoint-tail-gets-bare-incoming-adjoint", "C11", ADJOINT_, _NARY_OLD, _NARY_NEW % "out_adj", "R11.13", "adjoint_contract_generic")
+silent("c11-s-nary-adjoint-tail-gets-adjoint-of-rest", "C11", ADJOINT_, _NARY_OLD, _NARY_NEW % "rest_adj")
+silent("c11-s-nary-adjoint-tail-gets-explicit-product", "C11", ADJOINT_, _NARY_OLD, _NARY_NEW % "adj_prod_op(out_adj, head)")
+
 # ===== derived variants: must stay at the END of this file (they enumerate every rename() variant above) =====
 # `if c: A else: B` -> `if not c: B else: A` in the anchor functions (behaviour-preserving)
 def invert(prop, file, qual):
